@@ -222,4 +222,27 @@ func vh_C05_resolve() {
 	if merr == nil {
 		vAssertJSONEq(vJBytes(want), gb, "resolved element versus designated sub-document")
 	}
+	// the same reference once more after the other document was replaced at its location: the element
+	// designated now is the new one (every call reads the documents it is given)
+	if where == 1 && kind != 4 {
+		want2 := vC05Elem(kind, "replaced")
+		ld.docs[vUSub] = vJBytes(vC05Doc(kind, name, want2, false))
+		var got2 interface{}
+		var err2 error
+		switch kind {
+		case 0:
+			got2, err2 = ResolveRefWithBase(root, &ref, opts)
+		case 1:
+			got2, err2 = ResolveParameterWithBase(root, ref, opts)
+		case 2:
+			got2, err2 = ResolveResponseWithBase(root, ref, opts)
+		default:
+			got2, err2 = ResolvePathItemWithBase(root, ref, opts)
+		}
+		vAssert(err2 == nil, "a second resolution of the same reference fails")
+		if err2 == nil {
+			gb2, _ := json.Marshal(got2)
+			vAssertJSONEq(vJBytes(want2), gb2, "second resolution after the document was replaced versus the sub-document designated now")
+		}
+	}
 }
